@@ -206,8 +206,8 @@ def run(ctx):
                        'bitwise-identical repeat results are required only for the deterministic ODE models']
     only = getattr(ctx, 'only', None)
     if not only or 'ode' in only:
-        names = sorted(ac.ENTRIES)
-        run_hypothesis(ctx, 'ode', ac.analytic_case(names=names), prop_ode, 500 if quick else 15000, rounds=8)
+        for nm in sorted(ac.ENTRIES):
+            run_hypothesis(ctx, 'ode', ac.analytic_case(names=[nm]), prop_ode, 14 if quick else 300, rounds=3)
     if not only or 'simulators' in only:
         run_hypothesis(ctx, 'simulators', simrun.sim_case(nmax=12), prop_sim, 400 if quick else 15000, rounds=4)
     if not only or 'helpers' in only:
